@@ -354,7 +354,7 @@ func recvGrammar(e *Env) {
 		}
 	}
 	// (b) over a connection, through recv -> queue -> runLoop -> dispatch
-	s := startSession(e, ClientOpts{Nick: "me", Flood: true, Track: g.Pct(30)}, func(l *simnet.Link) { l.ChunkMode = 1 + g.Intn(3) })
+	s := startSession(e, ClientOpts{Nick: "me", Flood: true, Track: g.Pct(30)}, func(l *simnet.Link) { l.ChunkMode = 1 + g.Intn(3); l.Window = []int{0, 0, 0, 16, 64, 300}[g.Intn(6)] })
 	var seen []*client.Line
 	verbs := map[string]bool{}
 	for _, m := range msgs {
@@ -528,7 +528,7 @@ func recvAdversary(e *Env) {
 			return
 		}
 	}
-	s := startSession(e, ClientOpts{Nick: "me", Flood: true, Track: track}, func(l *simnet.Link) { l.ChunkMode = g.Intn(4) })
+	s := startSession(e, ClientOpts{Nick: "me", Flood: true, Track: track}, func(l *simnet.Link) { l.ChunkMode = g.Intn(4); l.Window = []int{0, 0, 0, 16, 64, 300}[g.Intn(6)] })
 	var markers []int
 	s.c.HandleFunc("PRIVMSG", func(c *client.Conn, l *client.Line) {
 		var k int
